@@ -137,6 +137,11 @@ CLAIMED = {
             "three clauses: the scan cap counts distinct terms and never stops the scan of later segments (doc_freq below the cap is "
             "layout-independent); doc_freq is accumulated by addition wherever it is written; options are sorted score-descending then "
             "text-ascending and cut to size after the sort. Which terms match and their frequencies are runtime facts and NOT decided", "5/C22"),
+    "C29": ("guard dominance over the kept graph candidates, rejecting-comparison dominance for the dimension, per-arm operation table of the metric, who-may-call of the graph search — on the workspace built WITH the vectors feature",
+            "four clauses (configuration `features`): a graph candidate is kept only if live and passing the request filter and the "
+            "vector filter, its score multiplied by the clause boost; a clause enters the plan only after vector.len() == field.dim; "
+            "Cosine is the dot product and L2 the negated l2_distance of (a, b); the HNSW graph is searched from "
+            "collect_vector_maps only. Similarity values, the blend and nearest-neighbour exactness are NOT decided", "5/C29"),
     "C30": ("must-order of the page-cutting steps, key-function agreement between sort and filter, operator strictness, provenance of after_key",
             "the page-cutting skeleton of finalize_composite: sort, then filter by `after`, then has_more = (len > size), then cut; sort "
             "and filter build keys with the same function; the filter is strictly `>` and has_more strictly `>`; after_key is the "
@@ -145,7 +150,6 @@ CLAIMED = {
 
 NA = {
     "C27": "quantifies over orderings of browser tasks / IndexedDB completions and the module is cfg(target_arch=\"wasm32\"): no wasm32 target is installed, so the code cannot be type-checked here",
-    "C29": "similarity values, blending and nearest-neighbour exactness are numerical / algorithmic; the feature is outside the pinned build",
 }
 
 
